@@ -127,6 +127,9 @@ func runC13(res *vh.Result) {
 			nfar := rng.Range(1, 2)
 			for f := uint32(1); f <= uint32(nfar); f++ {
 				fr := &c13FAR{action: []uint16{4, 0xc, 4, 0xc, 4, 2, 1}[rng.Intn(7)], peer: rng.Range(1, 2), teid: uint32(0x5000 + incs*16 + int(f))}
+				if fr.action&4 != 0 && rng.Chance(1, 3) {
+					fr.peer, fr.teid = 0, 0 // an idle UE: buffering FAR without forwarding parameters yet
+				}
 				s.far[f] = fr
 				rules = append(rules, vh.Rule{Kind: "FAR", ID: uint64(f), Action: fr.action, Peer: fr.peer, TEID: fr.teid})
 			}
@@ -258,6 +261,13 @@ func runC13(res *vh.Result) {
 				} else if fr.action&4 == 0 && rng.Chance(2, 3) {
 					op.Action = []uint16{4, 0xc}[rng.Intn(2)] // back to buffering
 				}
+				newPeer, newTEID := 0, uint32(0)
+				if fr.peer == 0 && op.Action&2 != 0 {
+					// the UE became reachable: the switch to FORW brings the tunnel (Update Forwarding Parameters) with it
+					newPeer, newTEID = rng.Range(1, 2), uint32(0x7000+len(ops))
+					fr.peer, fr.teid = newPeer, newTEID
+					op.Target = "forw-with-new-tunnel"
+				}
 				ops = append(ops, op)
 				wasBuff := fr.action&4 != 0
 				if wasBuff && (op.Action&1 != 0 || op.Action&2 != 0) {
@@ -291,11 +301,11 @@ func runC13(res *vh.Result) {
 					}
 				}
 				seq := smf.NextSeq()
-				uie := vh.Rule{Kind: "FAR", ID: uint64(op.FAR), Action: op.Action}.UpdateIE()
+				uie := vh.Rule{Kind: "FAR", ID: uint64(op.FAR), Action: op.Action, Peer: newPeer, TEID: newTEID}.UpdateIE()
 				if rng.Chance(1, 4) {
 					// PFCP fixes no order of the IEs inside a grouped IE: Apply Action before FAR ID
 					uie.C[0], uie.C[1] = uie.C[1], uie.C[0]
-					ops[len(ops)-1].Target = "apply-action-before-far-id"
+					ops[len(ops)-1].Target += " apply-action-before-far-id"
 				}
 				if _, err := fs.Request(smf, 0, vh.BuildMsg(vh.MModReq, &s.up, seq, uie), seq, true); err != nil {
 					res.Inconc("request: " + err.Error())
